@@ -192,7 +192,8 @@ class Excel_PairTabulation(PairTabulation_AbstractBase):
     pot_dict = {}
     for p in self.potentials:
       k = "{}-{}".format(*sorted([p.speciesA, p.speciesB]))
-      v = p.potentialFunction
+      # (the energy method, as every other tabulation target uses: a Potential sub-class may override it)
+      v = p.energy
       pot_dict[k] = v
     column_heads = sorted(pot_dict.keys())
     self._populate_worksheet(ws, "r", _r_value_iterator(self), column_heads, pot_dict )
